@@ -67,6 +67,7 @@ pub fn selftest_cmd(seed: u64) -> i32 {
                 exec: None,
                 info: None,
                 walk: None,
+                comp: None,
             };
             let res = crate::exec::run(&sc);
             if let Some(e) = &res.parse_err {
